@@ -437,7 +437,18 @@ def parse_timeout(ctx_text, wasm_text):
     maps = "Ok(0)=>matchself.scan_state{ScanState::Timeout=>Err(ScanError::Timeout),_=>Ok(()),}" in ev
     err_passthrough = "Err(err)iferr.is::<ScanError>()=>{Err(err.downcast::<ScanError>().unwrap())}" in ev
     drains = "forrulesinself.matching_rules_per_ns.values_mut(){forrule_idinrules.drain(0..){self.matching_rules.push(rule_id);}}" in ev
-    return dict(default=default, sets_timeout=sets_timeout, forces=forces, maps=maps, err_passthrough=err_passthrough, drains=drains)
+    # verify_anchored_patterns: the anchor of a pattern used as `$a at N` relative to the block
+    va = re.sub(r"\s+", "", strip_comments(fn_body(ctx_text, "verify_anchored_patterns")))
+    for need in ("anchored_at:Some(offset),", "verify_literal(pattern,data,offset,*flags)", "Match::new(offset..offset+pattern.len()).rebase(base)"):
+        if need not in va:
+            raise TranslateError("verify_anchored_patterns changed (missing `%s`)" % need)
+    if "iflet(offset,false)=offset.overflowing_sub(base){" in va:
+        anchored_skip = True
+    elif re.search(r"letoffset=offset\.(saturating|wrapping)_sub\(base\);", va):
+        anchored_skip = False
+    else:
+        raise TranslateError("verify_anchored_patterns: how the anchor is made relative to the block's base is not understood")
+    return dict(anchored_skip=anchored_skip, default=default, sets_timeout=sets_timeout, forces=forces, maps=maps, err_passthrough=err_passthrough, drains=drains)
 
 
 def fn_bodies(code):
@@ -641,7 +652,10 @@ Definition search_timeout_sets_state_timeout : bool := {str(tmo['sets_timeout'])
 Definition host_search_forces_epoch_deadline_zero : bool := {str(tmo['forces']).lower()}.
 Definition eval_maps_state_timeout_to_error : bool := {str(tmo['maps']).lower()}.
 Definition eval_passes_wasm_timeout_error : bool := {str(tmo['err_passthrough']).lower()}.
-Definition eval_drains_matching_rules_before_result : bool := {str(tmo['drains']).lower()}.""")
+Definition eval_drains_matching_rules_before_result : bool := {str(tmo['drains']).lower()}.
+
+(* verify_anchored_patterns: `offset.overflowing_sub(base)`, the block is skipped when its base is past the anchor *)
+Definition anchored_skips_block_past_offset : bool := {str(tmo['anchored_skip']).lower()}.""")
     tl_names = [f"tl_{m}_{n}" for m, n, _, _ in tls]
     o.append("(* per-thread caches of the modules (thread_local! RefCell/Cell statics) *)\nInductive tl_cache : Set :=\n" + "\n".join("| " + n for n in tl_names) + ".")
     o.append("Scheme Equality for tl_cache.")
